@@ -1,5 +1,5 @@
 CONSTANTS MaxLen = 3
-          NSym = 26
+          NSym = 28
 INIT Init
 NEXT Next
 CHECK_DEADLOCK FALSE
